@@ -665,3 +665,104 @@ Proof.
   intros H Hr. injection H as H _. destruct st; cbn in H; injection H as H1 H2; subst; try reflexivity;
     destruct Hr as [Hr|[e Hr]]; discriminate.
 Qed.
+
+(* ================================================================== pause on a tripwire, resume *)
+Lemma run_loop_reindex bps T T' : forall its k k' s,
+  (forall j x, T (k' + j)%nat x = T' (k + j)%nat x) ->
+  forall s' st n, run_loop bps T' k its s = (s', st, n) ->
+  exists m, n = (k + m)%nat /\ run_loop bps T k' its s = (s', st, (k' + m)%nat).
+Proof.
+  induction its as [|it rest IH]; intros k k' s HT s' st n H.
+  - cbn in *. inversion H; subst. exists O. rewrite !Nat.add_0_r. split; reflexivity.
+  - cbn [run_loop] in *.
+    destruct (s_mcr (clear_if (it_pre it) s)); cbn [negb] in *.
+    2:{ inversion H; subst. exists O. rewrite !Nat.add_0_r. split; reflexivity. }
+    pose proof (HT O (clear_if (it_pre it) s)) as E0. rewrite !Nat.add_0_r in E0. rewrite E0.
+    destruct (T' k (clear_if (it_pre it) s)); cbn [negb] in *.
+    2:{ inversion H; subst. exists O. rewrite !Nat.add_0_r. split; reflexivity. }
+    destruct (step (it_env it) (clear_if (it_mid it) (clear_if (it_pre it) s))) as [s2 r].
+    destruct r as [[]|[| e |]].
+    + destruct (any_bp bps s2).
+      * inversion H; subst. exists 1%nat. rewrite !Nat.add_1_r. split; reflexivity.
+      * assert (HT' : forall j x, T (S k' + j)%nat x = T' (S k + j)%nat x).
+        { intros j x. pose proof (HT (S j) x) as E. rewrite !Nat.add_succ_r in E. exact E. }
+        destruct (IH (S k) (S k') s2 HT' _ _ _ H) as (m & En & Hrun).
+        exists (S m). split; [lia|]. rewrite Hrun. f_equal. lia.
+    + inversion H; subst. exists 1%nat. rewrite !Nat.add_1_r. split; reflexivity.
+    + inversion H; subst. exists 1%nat. rewrite !Nat.add_1_r. split; reflexivity.
+    + inversion H; subst. exists 1%nat. rewrite !Nat.add_1_r. split; reflexivity.
+Qed.
+
+Lemma tripwire_prefix bps T1 T its2 : forall its1 k s s1 n,
+  run_loop bps T1 k its1 s = (s1, SPause PTripwire, n) ->
+  (forall j x, (k <= j < n)%nat -> T j x = T1 j x) ->
+  exists m, n = (k + m)%nat /\ s_mcr s1 = true /\
+    run_loop bps T k (firstn m its1 ++ its2) s = run_loop bps T n its2 s1.
+Proof.
+  induction its1 as [|it rest IH]; intros k s s1 n H HT.
+  - cbn in H. inversion H.
+  - cbn [run_loop] in H.
+    destruct (s_mcr (clear_if (it_pre it) s)) eqn:Hm; cbn [negb] in H; [|inversion H].
+    destruct (T1 k (clear_if (it_pre it) s)) eqn:Ht; cbn [negb] in H.
+    2:{ inversion H; subst. exists O. rewrite Nat.add_0_r. split; [reflexivity|]. split; [exact Hm|].
+        cbn [firstn app]. destruct (it_pre it); [cbn in Hm; discriminate | reflexivity]. }
+    destruct (step (it_env it) (clear_if (it_mid it) (clear_if (it_pre it) s))) as [s2 r] eqn:Hs.
+    destruct r as [[]|[| e |]]; try (inversion H; fail).
+    destruct (any_bp bps s2) eqn:Hbp; [inversion H|].
+    assert (HT' : forall j x, (S k <= j < n)%nat -> T j x = T1 j x) by (intros; apply HT; lia).
+    destruct (IH (S k) s2 s1 n H HT') as (m & En & Hm1 & Hrun).
+    exists (S m). split; [lia|]. split; [exact Hm1|].
+    cbn [firstn app run_loop]. rewrite Hm. rewrite (HT k _ ltac:(lia)), Ht. cbn [negb].
+    rewrite Hs, Hbp. exact Hrun.
+Qed.
+
+Lemma trip_seq_first n1 T1 T2 j x : (j < n1)%nat -> trip_seq n1 T1 T2 j x = T1 j x.
+Proof. intro H. unfold trip_seq. apply Nat.ltb_lt in H. rewrite H. reflexivity. Qed.
+Lemma trip_seq_second n1 T1 T2 j x : trip_seq n1 T1 T2 (n1 + j)%nat x = T2 (0 + j)%nat x.
+Proof.
+  unfold trip_seq. assert (H : (n1 + j <? n1)%nat = false) by (apply Nat.ltb_ge; lia).
+  rewrite H. replace (n1 + j - n1)%nat with j by lia. reflexivity.
+Qed.
+
+(* a call that pauses on its tripwire and a second call that resumes, against ONE call whose
+   tripwire is the first one and then the second one: same result, pause condition, total
+   number of instructions and state up to the observer *)
+Lemma resume_after_tripwire bps T1 T2 its1 its2 sp sp1 n1 sp2 r2 n2 :
+  trip_ignores_obs T2 ->
+  run_while bps T1 its1 sp = (sp1, ROk, n1) -> snd sp1 = PTripwire ->
+  run_while bps T2 its2 sp1 = (sp2, r2, n2) ->
+  exists sp', run_while bps (trip_seq n1 T1 T2) (firstn n1 its1 ++ its2) sp = (sp', r2, (n1 + n2)%nat) /\
+    snd sp' = snd sp2 /\ same_but_obs (fst sp') (fst sp2).
+Proof.
+  intros HT2 H1 Hp1 H2. rewrite run_while_finish in *.
+  destruct (run_loop bps T1 0 its1 (start (fst sp))) as [[s1 st1] m1] eqn:E1.
+  injection H1 as F1 N1. subst m1.
+  destruct st1; cbn in F1; try discriminate. injection F1 as F1. subst sp1. cbn in Hp1. subst p.
+  cbn [fst snd] in *.
+  destruct (tripwire_prefix bps T1 (trip_seq n1 T1 T2) its2 its1 O _ _ _ E1) as (m & En & Hm1 & Hrun).
+  { intros j x Hj. apply trip_seq_first. lia. }
+  cbn in En. subst m. rewrite Hrun. clear Hrun.
+  rewrite (start_after_pause s1 Hm1) in H2.
+  destruct (run_loop bps T2 0 its2 (upd_obs s1 [])) as [[s2 st2] m2] eqn:E2.
+  injection H2 as F2 N2. subst m2.
+  destruct (run_loop_obs bps _ HT2 its2 O _ (s_obs s1) _ _ _ E2) as [o' E2'].
+  change (upd_obs (upd_obs s1 []) (s_obs s1)) with (upd_obs s1 (s_obs s1)) in E2'. rewrite upd_obs_same in E2'.
+  destruct (run_loop_reindex bps (trip_seq n1 T1 T2) T2 its2 O n1 s1 (trip_seq_second n1 T1 T2) _ _ _ E2') as (m & En & Hrun).
+  cbn in En. subst m. rewrite Hrun.
+  destruct (finish_obs s2 o' st2) as (P1 & P2 & P3).
+  pose proof (f_equal fst F2) as Fa. pose proof (f_equal snd F2) as Fb. cbn [fst snd] in Fa, Fb. subst sp2 r2.
+  exists (fst (finish (upd_obs s2 o') st2)).
+  repeat split.
+  - destruct (finish (upd_obs s2 o') st2) as [x y] eqn:Ef. cbn [fst snd] in *. rewrite P2. reflexivity.
+  - exact P1.
+  - exact P3.
+Qed.
+
+Lemma trip_over_ignores_obs d : trip_ignores_obs (trip_over d).
+Proof. intros k x o. destruct k; reflexivity. Qed.
+Lemma trip_out_ignores_obs d : trip_ignores_obs (trip_out d).
+Proof. intros k x o. destruct k; reflexivity. Qed.
+Lemma trip_true_ignores_obs : trip_ignores_obs trip_true.
+Proof. intros k x o. reflexivity. Qed.
+Lemma tw_eval_ignores_obs t : trip_ignores_obs (tw_eval t).
+Proof. intros k x o. destruct t; reflexivity. Qed.
